@@ -28,20 +28,20 @@ type Server struct {
 	Executed                   GSet
 
 	// replication channel ''
-	HasSource            bool
-	Source               string
-	IORunning            bool
-	SQLRunning           bool
-	IOErrno, SQLErrno    int
-	IOError, SQLError    string
-	Retrieved            GSet
-	Lag                  *float64 // Seconds_Behind_Source when both threads run; nil = 0
-	LagFrozen            bool     // lag does not shrink by itself
-	SourceLogFile        string
-	ReadSourceLogPos     int64
-	IOStalled            bool // IO thread runs but fetches nothing (download stalled)
-	InjectSQLErrno       int  // next apply fails with this errno (kept: permanent)
-	RelayOneAtATime      bool
+	HasSource         bool
+	Source            string
+	IORunning         bool
+	SQLRunning        bool
+	IOErrno, SQLErrno int
+	IOError, SQLError string
+	Retrieved         GSet
+	Lag               *float64 // Seconds_Behind_Source when both threads run; nil = 0
+	LagFrozen         bool     // lag does not shrink by itself
+	SourceLogFile     string
+	ReadSourceLogPos  int64
+	IOStalled         bool // IO thread runs but fetches nothing (download stalled)
+	InjectSQLErrno    int  // next apply fails with this errno (kept: permanent)
+	RelayOneAtATime   bool
 
 	// semi-sync
 	PluginLoaded      bool
@@ -61,11 +61,11 @@ type Server struct {
 	StartTime   time.Duration
 	ReplMon     bool
 	ReplMonTS   float64
-	Dubious     bool   // connections from other hosts are refused with error 1040 (too many connections)
+	Dubious     bool              // connections from other hosts are refused with error 1040 (too many connections)
 	FailOps     map[string]uint16 // statements of these kinds (Classify op names) fail with the MySQL error number
 	StuckSQL    bool              // the SQL thread runs but applies nothing
-	FailRO      uint16 // SET read_only/super_read_only statements fail with this MySQL error number
-	FailSSQuery bool   // the semi-sync status query fails (connection-level error)
+	FailRO      uint16            // SET read_only/super_read_only statements fail with this MySQL error number
+	FailSSQuery bool              // the semi-sync status query fails (connection-level error)
 	StmtCount   int
 	MutCount    int
 	LastMutProc string
